@@ -34,6 +34,6 @@ SPEC = {
     ],
     "stated_not_proved": [
         "remap_val = the Rust traversal of remap.rs is not a theorem (there is no Rust semantics here): it is the CTree correspondence (whole class trees of corpus and generated classes, input and output of remap_class, compared node by node with remap_val gen_table, and with spec_remap_val) plus the translator's fail-closed recognition of every impl body",
-        "the step from the tree returned by remap_class to the bytes in the output jar (duke's writer, C02; zip container) is covered by the spec_remap oracle on the re-opened jar, not by a theorem; F01p (parameter annotations not in duke's tree) and the empty Record attribute (duke's tree cannot represent it: C01's F13r; reported under F18c) live there",
+        "the step from the tree returned by remap_class to the bytes in the output jar (duke's writer, C02; zip container) is covered by the spec_remap oracle on the re-opened jar, not by a theorem (instruction lists are compared instruction by instruction with targets as instruction indices; every run includes jars whose classes have method bodies over 32 KiB with forward and backward jumps beyond the 16-bit range — javac's BigMethod, classfile::gen::boundary, harness/src/bin/c07/far.rs — every class renamed and so re-written by duke's multi-attempt layout; the harness fails the run if that stream is empty or was not compared); F01p (parameter annotations not in duke's tree) and the empty Record attribute (duke's tree cannot represent it: C01's F13r; reported under F18c) live there",
     ],
 }
